@@ -2,6 +2,7 @@
 from __future__ import annotations
 
 import os
+import re
 import time
 import traceback
 
@@ -55,6 +56,52 @@ class Raised:
         return f"Raised({type(self.exc).__name__}: {self.exc})"
 
 
+_SIG_MISMATCH = re.compile(r"got an unexpected keyword argument|positional arguments? but|required (positional|keyword-only) argument|got multiple values for")
+
+
+_SRC_CACHE = {}
+
+
+def _assigned_in_class_source(cls, name):
+    """is `self.<name>` assigned somewhere in the module of the class (or named in its slots / annotations)?"""
+    import inspect
+    import sys
+    if not name:
+        return False
+    for k in cls.__mro__:
+        if name in getattr(k, "__slots__", ()) or name in getattr(k, "__annotations__", {}):
+            return True
+        mod = sys.modules.get(k.__module__)
+        if mod is None or not (k.__module__ or "").startswith(shadow.PKG):
+            continue
+        if k.__module__ not in _SRC_CACHE:
+            try:
+                _SRC_CACHE[k.__module__] = inspect.getsource(mod)
+            except (OSError, TypeError):
+                _SRC_CACHE[k.__module__] = open(mod.__spec__.origin, encoding="utf-8").read() if getattr(mod, "__spec__", None) else ""
+        if re.search(rf"\bself\.{re.escape(name)}\s*(:[^=\n]+)?=[^=]", _SRC_CACHE[k.__module__]):
+            return True
+    return False
+
+
+def harness_limit(e):
+    """An exception that says the *fixture* cannot follow the code - not that the code is wrong: the code reads an attribute a
+    sidecar fixture class does not model, or calls a sidecar stub with a signature the stub does not have.  Reported as
+    UNDECIDED (the contract has to be extended), never as a violation: an equivalent refactoring may do the same."""
+    if isinstance(e, AttributeError):
+        obj = getattr(e, "obj", None)
+        if obj is not None:
+            cls = obj if isinstance(obj, type) else type(obj)
+            if (cls.__module__ or "").split(".")[0] in ("contracts", "pyvc", "bounded") or cls.__name__ == "SimpleNamespace":
+                return f"the fixture class {cls.__qualname__} does not model the attribute '{getattr(e, 'name', '?')}' the code now uses"
+            if (cls.__module__ or "").startswith(shadow.PKG) and _assigned_in_class_source(cls, getattr(e, "name", None)):
+                return (f"the fixture builds {cls.__qualname__} without its constructor and does not provide the attribute '{e.name}' "
+                        f"the code now uses (new state needs a contract)")
+    if isinstance(e, TypeError) and _SIG_MISMATCH.search(str(e)) and ("<locals>" in str(e) or "<lambda>" in str(e)):
+        return f"a sidecar stub is called with a signature it does not have: {e}"
+    return None
+
+
 def call(fn, *a, **k):
     """run the function under verification; repository exceptions become values"""
     try:
@@ -62,6 +109,9 @@ def call(fn, *a, **k):
     except core.VCSignal:
         raise
     except Exception as e:  # noqa: BLE001
+        why = harness_limit(e)
+        if why:
+            raise Unsupported(why) from e
         return Raised(e)
 
 
